@@ -112,6 +112,12 @@ def run_standard(prop, tier, gens, case_of, trace, key_of, corruptors, init_name
             if sorted(b[0] for b in rs['bad'] if b[0] < nbadwant) != list(range(nbadwant)) or good_is_bad:
                 print('MACHINERY: binding self-test failed: corrupted observations accepted or a genuine one rejected: %s' % (rs['bad'],))
                 return 2
+        import os
+        dump = os.environ.get('VERIF_DUMP_BAD')
+        if dump:
+            with open(dump, 'w', encoding='utf-8') as fh:
+                for eid, clause in res['bad']:
+                    fh.write(json.dumps({'key': key_of(cases[eid], clause), 'clause': clause, 'observed': obs[eid]}, ensure_ascii=False, default=str) + '\n')
         for eid, clause in res['bad']:
             c = cases[eid]
             V.violation(key_of(c, clause), {'case': c, 'observed': obs[eid], 'clause': clause})
